@@ -3,6 +3,11 @@ package main
 // Area "numscript": type-directed Numscript program generator (AST as JSON + pretty-printed text) and the real
 // pipeline compile -> SetVarsFromJSON -> ResolveResources -> ResolveBalances -> vm.Run.
 //
+// About 30 % of the programs come from three focused shapes (input field "shape"): "ordered" (one send over an ordered, possibly
+// nested list of plain / capped / bounded-overdraft sources in one asset, the same account at non-adjacent places), "allot" (one send
+// of a likely large amount through portions: fractional percents, denominators up to 10^4, totals at / one unit under / over 100 %),
+// "save-receive" (an account is saved from, then receives, then another account pays); the rest is the general generator.
+//
 // input : {"text":…, "ast":{"vars":[…],"stmts":[…]}, "vars":{name:raw}, "meta":{k:v}, "bal":[[acct,asset,int]…], "ameta":[[acct,key,val]…]}
 // output: {"err":class,"stage":…} | {"postings":[[src,dst,amt,asset]…],"txmeta":{…},"ameta":{acct:{…}},"lockR":[…],"lockW":[…],"bal":[[a,s,v]…]}
 
@@ -43,9 +48,13 @@ type nsGen struct {
 	asset string
 	bad   int // per-mille probability of a deliberately wrong choice
 	used  map[string]bool
-	nums  []int64 // amounts seen (for the balance lattice)
+	nums  []*big.Int // amounts seen (for the balance lattice)
 	depth int
-	hot   string // one account per program is reached again and again, so that statements collide on it
+	hot   string          // one account per program is reached again and again, so that statements collide on it
+	large int             // per-cent probability that an amount is a large one (10^6, 10^9, 2^70 …)
+	wide  bool            // portions: fractional percents, large denominators, totals next to 100 % are likely
+	rich  map[string]bool // accounts whose balance must cover the amounts of the program (balance table)
+	pos   map[string]bool // "account asset" pairs that should hold a positive balance
 }
 
 func (g *nsGen) wrong() bool { return g.bad > 0 && g.r.n(1000) < g.bad }
@@ -60,8 +69,20 @@ func (g *nsGen) varsOf(ty string) []nsVar {
 	return out
 }
 
+// amounts where rounding of shares shows: a missing fraction of a share is more than one unit per entry
+var nsLarge = []string{"1000000", "1000000000", "1180591620717411303424" /* 2^70 */, "3000000", "999999", "1000001", "123456789"}
+
+func (g *nsGen) note(s string) string {
+	b, _ := new(big.Int).SetString(s, 10)
+	g.nums = append(g.nums, b)
+	return s
+}
+
 func (g *nsGen) amountStr() string {
-	switch g.r.n(14) {
+	if g.large > 0 && g.r.p(g.large) {
+		return g.note(g.r.pick(nsLarge))
+	}
+	switch g.r.n(15) {
 	case 0:
 		return "0"
 	case 1:
@@ -70,10 +91,10 @@ func (g *nsGen) amountStr() string {
 		return "36893488147419103232" // 2^65
 	case 3:
 		return "18446744073709551616" // 2^64
+	case 4:
+		return g.note(g.r.pick(nsLarge))
 	default:
-		n := int64(g.r.n(60))
-		g.nums = append(g.nums, n)
-		return fmt.Sprint(n)
+		return g.note(fmt.Sprint(g.r.n(60)))
 	}
 }
 
@@ -180,27 +201,76 @@ func (g *nsGen) source(depth int, last bool, isAll bool) J {
 	return J{"k": "inorder", "ss": ss}
 }
 
+// pctText renders k/den as a percentage with at most four decimals ("" when it has no such expansion);
+// pad adds a trailing zero ("12.50%": same value, other text)
+func pctText(k, den int, pad bool) string {
+	num := int64(k) * 100 * 10000
+	if den <= 0 || num%int64(den) != 0 {
+		return ""
+	}
+	v := num / int64(den)
+	ip, fp := v/10000, v%10000
+	if fp == 0 {
+		if pad {
+			return fmt.Sprintf("%d.0%%", ip)
+		}
+		return fmt.Sprintf("%d%%", ip)
+	}
+	f := strings.TrimRight(fmt.Sprintf("%04d", fp), "0")
+	if pad && len(f) < 4 {
+		f += "0"
+	}
+	return fmt.Sprintf("%d.%s%%", ip, f)
+}
+
+func (g *nsGen) nPortions() int {
+	if (g.wide && g.r.p(30)) || g.r.p(5) {
+		return 4 + g.r.n(4)
+	}
+	return 2 + g.r.n(2)
+}
+
+// portions: n entries over one denominator.  Shapes: a random split that adds up to 100 % (last entry constant or
+// `remaining`), equal shares (33.33% x 3: exact or just under), a total one unit of the denominator under / over 100 %.
 func (g *nsGen) portions(n int, allowVar bool) []J {
 	var js []J
-	den := []int{2, 3, 4, 5, 7, 10, 100}[g.r.n(7)]
+	dens := []int{2, 3, 4, 5, 7, 10, 100}
+	wide := g.wide || g.r.p(25)
+	if wide {
+		dens = []int{2, 3, 4, 5, 6, 7, 8, 9, 10, 100, 100, 1000, 1000, 10000, 10000, 10000, 10000, 10000, 10000}
+	}
+	den := dens[g.r.n(len(dens))]
 	left := den
-	usePct := den == 100 || den == 10 || den == 4 || den == 2 || den == 5
 	mk := func(k int) J {
-		if usePct && g.r.p(50) {
-			return J{"k": "const", "n": fmt.Sprint(k), "d": fmt.Sprint(den), "t": fmt.Sprintf("%d%%", k*100/den)}
+		t := fmt.Sprintf("%d/%d", k, den)
+		if pt := pctText(k, den, g.r.p(8)); pt != "" && g.r.p(60) {
+			t = pt
 		}
-		return J{"k": "const", "n": fmt.Sprint(k), "d": fmt.Sprint(den), "t": fmt.Sprintf("%d/%d", k, den)}
+		return J{"k": "const", "n": fmt.Sprint(k), "d": fmt.Sprint(den), "t": t}
+	}
+	shape := "split"
+	if wide {
+		switch x := g.r.n(100); {
+		case x < 18:
+			shape = "equal"
+		case x < 38:
+			shape = "under"
+		case x < 43:
+			shape = "over"
+		}
 	}
 	pvars := g.varsOf("portion")
 	hasVar := false
 	for i := 0; i < n-1; i++ {
-		if allowVar && len(pvars) > 0 && g.r.p(25) {
+		if shape == "split" && allowVar && len(pvars) > 0 && g.r.p(25) {
 			js = append(js, J{"k": "var", "v": pvars[g.r.n(len(pvars))].name})
 			hasVar = true
 			continue
 		}
 		k := 0
-		if left > 0 {
+		if shape == "equal" {
+			k = den / n
+		} else if left > 0 {
 			k = g.r.n(left + 1)
 		}
 		if i == 0 && k == left && left > 0 {
@@ -212,8 +282,12 @@ func (g *nsGen) portions(n int, allowVar bool) []J {
 	switch {
 	case g.wrong():
 		js = append(js, J{"k": "badconst", "t": "150%"})
-	case g.wrong():
+	case g.wrong() || shape == "over":
 		js = append(js, mk(left+1))
+	case shape == "under" && left > 0:
+		js = append(js, mk(left-1))
+	case shape == "equal" && g.r.p(50):
+		js = append(js, mk(den/n))
 	case hasVar || (left > 0 && g.r.p(70)):
 		if left == 0 { // constants already 100 %: the compiler rejects `remaining` here; keep the program valid
 			js[0] = mk(0)
@@ -234,7 +308,11 @@ func (g *nsGen) portions(n int, allowVar bool) []J {
 }
 
 func (g *nsGen) kd(depth int) J {
-	if g.r.p(20) {
+	kept := 20
+	if g.wide {
+		kept = 6
+	}
+	if g.r.p(kept) {
 		return J{"k": "kept"}
 	}
 	return J{"k": "to", "d": g.dest(depth)}
@@ -253,7 +331,11 @@ func (g *nsGen) dest(depth int) J {
 		}
 		return J{"k": "inorder", "caps": caps, "rest": g.kd(depth - 1)}
 	}
-	n := 2 + g.r.n(2)
+	return g.destAllot(depth)
+}
+
+func (g *nsGen) destAllot(depth int) J {
+	n := g.nPortions()
 	ps := g.portions(n, true)
 	var items []any
 	for i := 0; i < n; i++ {
@@ -327,7 +409,7 @@ func (g *nsGen) stmt(depthS, depthD int) J {
 	g.used = map[string]bool{}
 	var src J
 	if (!all && g.r.p(20)) || g.wrong() {
-		n := 2 + g.r.n(2)
+		n := g.nPortions()
 		ps := g.portions(n, true)
 		var items []any
 		for i := 0; i < n; i++ {
@@ -339,6 +421,192 @@ func (g *nsGen) stmt(depthS, depthD int) J {
 		src = J{"k": "src", "s": g.source(depthS, true, all)}
 	}
 	return J{"k": "send", "amt": amt, "src": src, "dst": g.dest(depthD), "destFirst": g.r.p(8)}
+}
+
+// ---- focused program shapes (a share of the cases; the rest comes from the general generator above)
+
+func (g *nsGen) litMon(asset, amt string) J {
+	return J{"k": "mon", "asset": lit("asset", asset), "amt": amt}
+}
+
+func (g *nsGen) smallMon(asset string, lo, span int) J {
+	if vs := g.varsOf("monetary"); len(vs) > 0 && g.r.p(15) {
+		return lit("var", vs[g.r.n(len(vs))].name)
+	}
+	return g.litMon(asset, g.note(fmt.Sprint(lo+g.r.n(span))))
+}
+
+// ordered source lists in one asset made of `@x`, `@x allowing overdraft up to [A k]`, `max [A m] from …` and nested
+// lists; an account met inside a `max … from` (which does not count as emptied) comes back later in the list
+func (g *nsGen) ordLeaf(asset string, emptied map[string]bool, seenMax *[]J, inMax bool) J {
+	var e J
+	if len(*seenMax) > 0 && g.r.p(45) {
+		if c := (*seenMax)[g.r.n(len(*seenMax))]; inMax || !emptied[exprKey(c)] {
+			e = c
+		}
+	}
+	for try := 0; e == nil || (try < 8 && !inMax && emptied[exprKey(e)]); try++ {
+		e = g.acctExpr(nsAccts)
+	}
+	if inMax {
+		*seenMax = append(*seenMax, e)
+	} else {
+		emptied[exprKey(e)] = true
+	}
+	if g.r.p(22) {
+		return J{"k": "acct", "e": e, "od": J{"k": "upto", "e": g.smallMon(asset, 0, 30)}}
+	}
+	return J{"k": "acct", "e": e, "od": nil}
+}
+
+func (g *nsGen) ordList(depth int, asset string, emptied map[string]bool, seenMax *[]J, inMax bool) J {
+	n := 2 + g.r.n(3)
+	var ss []any
+	for i := 0; i < n; i++ {
+		switch x := g.r.n(100); {
+		case x < 40:
+			ss = append(ss, g.ordLeaf(asset, emptied, seenMax, inMax))
+		case x < 78 || depth <= 0:
+			ss = append(ss, J{"k": "max", "cap": g.smallMon(asset, 0, 40), "s": g.ordLeaf(asset, map[string]bool{}, seenMax, true)})
+		case x < 90:
+			ss = append(ss, J{"k": "max", "cap": g.smallMon(asset, 0, 40), "s": g.ordList(depth-1, asset, map[string]bool{}, seenMax, true)})
+		default:
+			ss = append(ss, g.ordList(depth-1, asset, emptied, seenMax, inMax))
+		}
+	}
+	return J{"k": "inorder", "ss": ss}
+}
+
+func (g *nsGen) plainDest() J {
+	return J{"k": "acct", "e": g.acctExpr(append(append([]string{}, nsAccts...), "x", "y"))}
+}
+
+func (g *nsGen) cheapStmt() J {
+	if g.r.p(50) {
+		return J{"k": "setTxMeta", "key": g.r.pick([]string{"k1", "k2", "note"}), "v": g.anyExpr()}
+	}
+	return J{"k": "print", "e": g.anyExpr()}
+}
+
+func (g *nsGen) orderedProgram(depth int) []any {
+	g.asset = "USD"
+	if g.r.p(15) {
+		g.asset = "COIN"
+	}
+	var seen []J
+	src := g.ordList(depth-1, g.asset, map[string]bool{}, &seen, false)
+	dst := g.plainDest()
+	if g.r.p(15) {
+		dst = g.dest(1 + g.r.n(depth))
+	}
+	send := J{"k": "send", "amt": J{"k": "mon", "e": g.smallMon(g.asset, 5, 95)}, "src": J{"k": "src", "s": src}, "dst": dst, "destFirst": g.r.p(8)}
+	stmts := []any{send}
+	switch x := g.r.n(100); {
+	case x < 12:
+		stmts = append(stmts, g.cheapStmt())
+	case x < 20:
+		stmts = append([]any{g.cheapStmt()}, stmts...)
+	case x < 30:
+		stmts = append(stmts, g.stmt(1+g.r.n(depth), 1+g.r.n(depth)))
+	}
+	return stmts
+}
+
+// one send of a (likely large) amount through an allotment on the source or on the destination side, sources that
+// can pay: exactness of the shares is what is looked at
+func (g *nsGen) allotProgram(depth int) []any {
+	g.asset = "USD"
+	if g.r.p(15) {
+		g.asset = "COIN"
+	}
+	leaf := func() J {
+		switch x := g.r.n(100); {
+		case x < 35:
+			return J{"k": "acct", "e": lit("acct", "world"), "od": nil}
+		case x < 50:
+			return J{"k": "acct", "e": lit("acct", g.r.pick(nsAccts)), "od": J{"k": "unbounded"}}
+		case x < 90:
+			a := g.r.pick(nsAccts)
+			g.rich[a] = true
+			return J{"k": "acct", "e": lit("acct", a), "od": nil}
+		}
+		g.used = map[string]bool{}
+		return g.source(1+g.r.n(2), true, false)
+	}
+	amt := J{"k": "mon", "e": g.monExpr()}
+	var src, dst J
+	if g.r.p(50) {
+		n := g.nPortions()
+		ps := g.portions(n, true)
+		var items []any
+		for i := 0; i < n; i++ {
+			items = append(items, J{"p": ps[i], "s": leaf()})
+		}
+		src = J{"k": "allot", "items": items}
+		dst = g.plainDest()
+		if g.r.p(30) {
+			dst = g.dest(1 + g.r.n(depth))
+		}
+	} else {
+		src = J{"k": "src", "s": leaf()}
+		dst = g.destAllot(1 + g.r.n(2))
+	}
+	stmts := []any{J{"k": "send", "amt": amt, "src": src, "dst": dst, "destFirst": g.r.p(8)}}
+	if g.r.p(15) {
+		stmts = append(stmts, g.stmt(1+g.r.n(depth), 1+g.r.n(depth)))
+	}
+	return stmts
+}
+
+// an account is saved from (`save [A *] from @x` / `save [A k] from @x`), then receives funds in the same script,
+// then (often) another account pays: the statements meet on the tracked balance of @x
+func (g *nsGen) saveThenReceiveProgram(depth int) []any {
+	g.asset = "USD"
+	if g.r.p(25) {
+		g.asset = "COIN"
+	}
+	x := g.hot
+	g.pos[x+" "+g.asset] = true
+	var save J
+	if g.r.p(80) {
+		save = J{"k": "saveAll", "asset": lit("asset", g.asset), "acc": lit("acct", x)}
+	} else {
+		save = J{"k": "saveMon", "e": g.smallMon(g.asset, 0, 60), "acc": lit("acct", x)}
+	}
+	v := g.amountStr()
+	payer := J{"k": "acct", "e": lit("acct", "world"), "od": nil}
+	if g.r.p(35) {
+		a := g.r.pick(nsAccts)
+		g.rich[a] = true
+		payer = J{"k": "acct", "e": lit("acct", a), "od": nil}
+	}
+	dst := J{"k": "acct", "e": lit("acct", x)}
+	if g.r.p(20) {
+		dst = g.dest(1 + g.r.n(depth)) // the hot account is a likely target in there
+	}
+	recv := J{"k": "send", "amt": J{"k": "mon", "e": g.litMon(g.asset, v)}, "src": J{"k": "src", "s": payer}, "dst": dst, "destFirst": g.r.p(8)}
+	stmts := []any{save, recv}
+	if g.r.p(12) {
+		stmts = []any{recv, save}
+	}
+	if g.r.p(60) {
+		w := v
+		if g.r.p(40) {
+			w = g.amountStr()
+		}
+		g.used = map[string]bool{}
+		var s J
+		if g.r.p(70) {
+			s = J{"k": "acct", "e": g.acctExpr(nsAccts), "od": nil}
+		} else {
+			s = g.source(1+g.r.n(depth), true, false)
+		}
+		stmts = append(stmts, J{"k": "send", "amt": J{"k": "mon", "e": g.litMon(g.asset, w)}, "src": J{"k": "src", "s": s}, "dst": g.plainDest(), "destFirst": false})
+	}
+	if g.r.p(15) {
+		stmts = append([]any{g.stmt(1+g.r.n(depth), 1+g.r.n(depth))}, stmts...)
+	}
+	return stmts
 }
 
 func (g *nsGen) declareVars() []any {
@@ -375,7 +643,7 @@ func (g *nsGen) declareVars() []any {
 		case "string":
 			v.value = g.r.pick([]string{"s", "hello world", ""})
 		case "portion":
-			v.value = g.r.pick([]string{"1/2", "10%", "0%", "1/3", "12.5%", "100%"})
+			v.value = g.r.pick([]string{"1/2", "10%", "0%", "1/3", "12.5%", "100%", "33.33%", "0.01%", "9999/10000"})
 			if g.r.p(15) {
 				v.origin = J{"k": "meta", "acc": g.acctExpr(nsAccts), "key": "k5"}
 			}
@@ -395,16 +663,39 @@ func genNumscript(r *rng, n int, tier string, emit func(J)) {
 		depth = 5
 	}
 	for c := 0; c < n; c++ {
-		g := &nsGen{r: r.fork(), used: map[string]bool{}, asset: "USD"}
+		g := &nsGen{r: r.fork(), used: map[string]bool{}, asset: "USD", rich: map[string]bool{}, pos: map[string]bool{}}
 		g.hot = g.r.pick(nsAccts)
 		if g.r.p(20) {
 			g.bad = 15
 		}
-		decls := g.declareVars()
-		ns := 1 + g.r.n(3)
+		prof := ""
+		switch x := g.r.n(100); {
+		case x < 11:
+			prof = "ordered"
+		case x < 25:
+			prof = "allot"
+		case x < 31:
+			prof = "save-receive"
+		}
+		var decls []any
+		if prof == "" || g.r.p(25) {
+			decls = g.declareVars()
+		}
 		var stmts []any
-		for i := 0; i < ns; i++ {
-			stmts = append(stmts, g.stmt(1+g.r.n(depth), 1+g.r.n(depth)))
+		switch prof {
+		case "ordered":
+			stmts = g.orderedProgram(depth)
+		case "allot":
+			g.wide, g.large = true, 70
+			stmts = g.allotProgram(depth)
+		case "save-receive":
+			g.large = 15
+			stmts = g.saveThenReceiveProgram(depth)
+		default:
+			ns := 1 + g.r.n(3)
+			for i := 0; i < ns; i++ {
+				stmts = append(stmts, g.stmt(1+g.r.n(depth), 1+g.r.n(depth)))
+			}
 		}
 		ast := J{"vars": decls, "stmts": stmts}
 		// request variables and stored metadata
@@ -455,42 +746,56 @@ func genNumscript(r *rng, n int, tier string, emit func(J)) {
 		}
 		// balances from the amounts in the program: "runs dry exactly here" must be likely
 		var bal [][]string
+		top := big.NewInt(0)
+		for _, k := range g.nums {
+			if k.Cmp(top) > 0 {
+				top = k
+			}
+		}
 		for _, a := range append(append([]string{}, nsAccts...), "world") {
 			for _, s := range []string{"USD", "EUR", "COIN"} {
 				var b *big.Int
-				k := int64(0)
+				k := big.NewInt(0)
 				if len(g.nums) > 0 {
 					k = g.nums[g.r.n(len(g.nums))]
 				}
-				switch g.r.n(12) {
+				switch g.r.n(13) {
 				case 0:
 					b = big.NewInt(0)
 				case 1:
-					b = big.NewInt(-k)
+					b = new(big.Int).Neg(k)
 				case 2:
 					b, _ = new(big.Int).SetString("73786976294838206464", 10) // 2^66
 				case 3:
-					b = big.NewInt(k - 1)
+					b = new(big.Int).Sub(k, big.NewInt(1))
 				case 4:
-					b = big.NewInt(k)
+					b = new(big.Int).Set(k)
 				case 5:
-					b = big.NewInt(k + 1)
+					b = new(big.Int).Add(k, big.NewInt(1))
 				case 6:
 					b = big.NewInt(-int64(g.r.n(20)))
 				case 7, 8:
 					b = big.NewInt(int64(g.r.n(400)))
+				case 9:
+					b = new(big.Int).Add(k, k)
 				default:
 					b = big.NewInt(int64(g.r.n(60)))
 				}
-				if a == "world" {
+				switch {
+				case a == "world":
 					b = big.NewInt(-int64(g.r.n(1000)))
-				} else if a == g.hot && g.r.p(30) {
+				case g.rich[a] && g.r.p(75): // can pay every amount of the program
+					b = new(big.Int).Mul(top, big.NewInt(int64(1+g.r.n(3))))
+					b.Add(b, big.NewInt(int64(g.r.n(3))))
+				case g.pos[a+" "+s] && g.r.p(85):
+					b = big.NewInt(int64(1 + g.r.n(400)))
+				case a == g.hot && g.r.p(30):
 					b = big.NewInt(-int64(1 + g.r.n(40)))
 				}
 				bal = append(bal, []string{a, s, b.String()})
 			}
 		}
-		emit(J{"text": printScript(ast), "ast": ast, "vars": vars, "meta": meta, "bal": bal, "ameta": ameta, "mut": g.bad > 0})
+		emit(J{"text": printScript(ast), "ast": ast, "vars": vars, "meta": meta, "bal": bal, "ameta": ameta, "mut": g.bad > 0, "shape": prof})
 	}
 }
 
